@@ -219,7 +219,8 @@ def sbox_config(name, seed):
         return 0x0123456789ABCDEF, 0
     if name == "zerokey":
         return 0, 0
-    return filler_int(seed, 8, b"sbox-key"), 0xA5C3E1
+    # fixed (seed-independent): the number of constructed blocks depends on the round keys
+    return dense_int(0, 8, b"sbox-key"), 0xA5C3E1
 
 
 def sbox_inputs(key, salt, rnd):
